@@ -2,13 +2,17 @@
 
 Proof: Props/C12.lean proves, by induction over arbitrary op histories, that the model of goom's builder / cache /
 mocker layer (Model/ApiC12.lean, a transcription of builder.go, cache.go, mocker.go, iface.go, when.go) refines the
-last-writer-wins reference model (Model/LwwC12.lean), that a repeated lookup returns the live mocker unless it was
-cancelled, that Reset starts from scratch and that a Pkg override is consumed by the next lookup.
-Tie X: whole histories are executed on the real goom API by an in-package probe (harness/c12) and by the model
-driver; mocker identities and the behaviour class of all 11 targets after every step must agree.
+last-writer-wins reference model (Model/LwwC12.lean) as long as every instruction goes through a handle that is still
+the builder's live mocker for its target (the excluded case is known finding `stale-handle`, with a counter-example
+theorem), that a repeated lookup returns the live mocker unless it was cancelled, that Reset starts from scratch and
+that a Pkg override is consumed by the next lookup, after which names resolve in the package that issued it.
+Tie X: whole histories are executed on the real goom API by a probe in the external test package (harness/c12; a
+helper package creates builders / issues lookups on its behalf) and by the model driver; the outcome class of every
+op and the behaviour class of all 15 targets after every step must agree.
 Oracle: a separate last-writer-wins reference (below, in Python) is applied to what the implementation did.
 """
 import os
+import subprocess
 import threading
 
 from vlib import common as C
@@ -17,15 +21,22 @@ META = {
     'property_id': 'C12',
     'technique': 'Lean 4 refinement proof (induction over all op histories) of a transcribed model of builder/cache/mocker against a last-writer-wins reference + differential run of random histories on the real goom API',
     'level': 'proof',
-    'level_text': 'Full proof on the model: for every history of Func / Struct.Method / Interface.Method / ExportFunc / ExportStruct.Method / Var lookups combined with Apply, Return, When, When..Return, Returns, Cancel, Reset and Pkg, the behaviour of every target after every step equals the last-writer-wins reference; a repeated lookup returns the live mocker unless cancelled; after Reset everything is original and configuration starts afresh; a Pkg override is consumed by the next lookup. The model is tied to the source by executing random and systematic histories on the real API and on the model and comparing mocker identities and behaviour classes after every step.',
-    'level_note': 'Trusted: Lean kernel (axioms propext, Classical.choice, Quot.sound at most), the hand transcription Model/ApiC12.lean (validated on every run against the real code on the generated histories), the probe and its canonicalisation. Universe: one builder, 2 functions, 2 methods, 1 single-method interface variable, 2x2 unexported functions and a same-named unexported struct method in two packages, int arguments/results; each target is reached through one kind of handle (the same function reached through Func and ExportFunc gets two independent mockers - outside the universe). The When algebra is shared between model and reference (it is the subject of C04/C05). reflect.MakeFunc, the patch layer and the GC are exercised, not modelled (GC is switched off in the probe: F9 belongs to C07).',
+    'level_text': 'Proof on the model: for every history of Func / Struct.Method / Interface.Method / ExportFunc / ExportStruct.Method / Var / UnExportedVar lookups (issued directly or kept in a variable and used later) combined with Apply, Return, When, When..Return, Returns, Set, Cancel, Reset and Pkg, in which every instruction goes through a handle that is still the live mocker of its target, the behaviour of every target after every step equals the last-writer-wins reference; a repeated lookup returns the live mocker unless cancelled; after Reset everything is original and configuration starts afresh; a Pkg override is consumed by the next lookup and names then resolve in the package that issued that lookup. Instructions through stale handles (cancelled and replaced in the builder cache) break last-writer-wins on the real code: known finding stale-handle, counter-example theorem in Findings/C12Stale.lean. The model is tied to the source by executing random and systematic histories on the real API and on the model and comparing outcome and behaviour classes after every step.',
+    'level_note': 'Trusted: Lean kernel (axioms propext, Classical.choice, Quot.sound at most), the hand transcription Model/ApiC12.lean (validated on every run against the real code on the generated histories, stale-handle histories included), the probe and its canonicalisation. Universe: one builder (created in the test package or in a helper package), 2 functions, 2 methods, 1 single-method interface variable, 2x2 unexported functions and a same-named unexported struct method in two packages, 2 int variables, int arguments/results; each target is reached through one kind of handle (the same function reached through Func and ExportFunc gets two independent mockers - outside the universe). Not generated and not modelled: interface handles used after their own Cancel (context backup) and kept variable handles (saved origin; C08). The When algebra is shared between model and reference (it is the subject of C04/C05). reflect.MakeFunc, the patch layer and the GC are exercised, not modelled (GC is switched off in the probe: F9 belongs to C07).',
 }
 
-TARGETS = ['fA', 'fB', 'm1', 'm2', 'im', 'x0', 'y0', 'x1', 'y1', 'u0', 'u1']
-HANDLES = [('fn', 'fA'), ('fn', 'fB'), ('st', 'M1'), ('st', 'M2'), ('if', 'M'), ('xf', 'X'), ('xf', 'Y'), ('xs', 'um')]
+TARGETS = ['fA', 'fB', 'm1', 'm2', 'im', 'x0', 'y0', 'x1', 'y1', 'u0', 'u1', 'vv', 'vw', 'ia', 'ib']
+SIBLING = {'ia': 'ib', 'ib': 'ia'}
+HANDLES = [('fn', 'fA'), ('fn', 'fB'), ('st', 'M1'), ('st', 'M2'), ('if', 'M'), ('xf', 'X'), ('xf', 'Y'), ('xs', 'um'),
+           ('var', 'v'), ('uvar', 'w'), ('i2', 'A'), ('i2', 'B')]
+VAR_KINDS = ('var', 'uvar')
+KEEP_KINDS = [('fn', 'fA'), ('st', 'M1'), ('xf', 'X'), ('xs', 'um'), ('if', 'M')]
 PKG_KINDS = ('xf', 'xs')        # lookups that resolve a name in the builder's package
+STUBS = ('ret', 'when', 'whenret', 'rets')
 KEY_F7 = 'stub-after-apply-not-reinstalled'
-KEY_F14 = 'pkg-override-survives-var-lookup'
+KEY_PKG = 'pkg-override-not-consumed-by-lookup'
+KEY_STALE = 'stale-handle'
+KEY_IF2 = 'iface-cancel-one-method'
 
 
 # ------------------------------------------------------------------ the reference: last writer wins (independent of the Lean model)
@@ -102,6 +113,7 @@ class RefWhen:
 
 
 def tgt_name(kind, name, pkg):
+    """The target a lookup addresses when names resolve in `pkg`; None: nothing exists under that name."""
     if kind == 'fn':
         return name
     if kind == 'st':
@@ -109,86 +121,137 @@ def tgt_name(kind, name, pkg):
     if kind == 'if':
         return 'im' if name == 'M' else None
     if kind == 'xf':
-        return {'X': 'x', 'Y': 'y'}[name] + pkg[1] if name in ('X', 'Y') else None
+        return {'X': 'x', 'Y': 'y'}[name] + pkg[1] if name in ('X', 'Y') and pkg in ('p0', 'p1') else None
     if kind == 'xs':
-        return 'u' + pkg[1] if name == 'um' else None
+        return 'u' + pkg[1] if name == 'um' and pkg in ('p0', 'p1') else None
+    if kind == 'i2':
+        return {'A': 'ia', 'B': 'ib'}.get(name)
+    if kind == 'var':
+        return 'vv'
+    if kind == 'uvar':
+        return 'vw'
     return None
 
 
 def norm(t):
     """`if M.aN ...` addresses the same interface method as `if M ...` (N only selects the literal given to As())."""
-    if t[0] == 'if' and t[1].startswith('M.a') and t[1][3:] in ('0', '1', '2'):
+    if len(t) > 1 and t[0] == 'if' and t[1].startswith('M.a') and t[1][3:] in ('0', '1', '2'):
         t = [t[0], 'M'] + t[2:]
+    if len(t) > 3 and t[0] == 'keep' and t[2] == 'if' and t[3].startswith('M.a'):
+        t = t[:3] + ['M']
     return t
 
 
-def reference(ops):
-    """Expected behaviour rows: per target the LAST instruction decides.  Returns list of strings like the probe's."""
-    beh = {t: 'o' for t in TARGETS}       # 'o' | 'k<i>' | RefWhen
-    pkg = 'p0'
-    rows = []
-    for op in ops:
-        t = norm(op.split())
-        if t[0] == 'pkg':
-            pkg = t[1]
-        elif t[0] == 'reset':
-            beh = {x: 'o' for x in TARGETS}
-        elif t[0] == 'var':
-            pkg = 'p0'                     # a lookup: consumes the override
+class Obj:
+    """What a lookup hands out (only used to tell which handle is stale; the property does not demand object identity)."""
+
+    def __init__(self, key, tgt, kind):
+        self.key, self.tgt, self.kind, self.canceled = key, tgt, kind, False
+
+
+class Ref:
+    """Last-writer-wins reference: per target the LAST instruction decides; a Pkg override is consumed by the next lookup,
+    after which names resolve in the package that issued it; a kept handle addresses the target it was looked up for."""
+
+    def __init__(self, newq):
+        self.beh = {t: 'o' for t in TARGETS}        # 'o' | 'k<i>' | RefWhen
+        self.pkg = 'pq' if newq else 'p0'          # a builder resolves names in the package that created it until its first lookup
+        self.cache, self.regs = {}, {}
+        self.stale_use = None                       # index of the first instruction issued through a stale handle
+        self.if2_cancel = None                      # index of the first Cancel of one method of the two-method interface while the other is configured
+        self.iface_stale = False
+
+    def lookup(self, kind, name, caller='p0'):
+        key = (kind, name, self.pkg if kind in PKG_KINDS else '')
+        tgt = tgt_name(kind, name, self.pkg)
+        self.pkg = caller
+        if kind == 'st' and name not in ('M1', 'M2'):
+            return None
+        o = self.cache.get(key)
+        if o is None or o.canceled:
+            o = self.cache[key] = Obj(key, tgt, kind)
+        return o
+
+    def stale(self, o):
+        return self.cache.get(o.key) is not o or (o.kind == 'if' and o.canceled)
+
+    def instr(self, o, ins, idx):
+        if ins[0] == 'look':
+            return
+        if self.stale(o):
+            if self.stale_use is None:
+                self.stale_use = idx
+            if o.kind == 'if' or o.kind in VAR_KINDS:
+                self.iface_stale = True
+        t = o.tgt
+        if ins[0] == 'cancel':
+            o.canceled = True
+            if t is not None:
+                if t in SIBLING and self.beh[t] != 'o' and self.beh[SIBLING[t]] != 'o' and self.if2_cancel is None:
+                    self.if2_cancel = idx
+                self.beh[t] = 'o'
+            return
+        if t is None or (ins[0] in STUBS and o.kind in VAR_KINDS):
+            return                                   # rejected: nothing of that name / no such instruction on a variable
+        if o.kind != 'if':
+            o.canceled = False                       # applying again revives the mocker (50de3fa); an interface context stays cancelled
+        if ins[0] == 'apply':
+            self.beh[t] = ins[1]
+        elif isinstance(self.beh[t], RefWhen):
+            self.beh[t].stub(ins)
         else:
-            tg = tgt_name(t[0], t[1], pkg)
-            pkg = 'p0'
-            ins = t[2:]
-            if tg is not None:
-                if ins[0] == 'apply':
-                    beh[tg] = ins[1]
-                elif ins[0] == 'cancel':
-                    beh[tg] = 'o'
-                elif ins[0] != 'look':
-                    if isinstance(beh[tg], RefWhen):
-                        beh[tg].stub(ins)
-                    else:
-                        beh[tg] = RefWhen.fresh(ins)
+            self.beh[t] = RefWhen.fresh(ins)
+
+    def step(self, t, idx):
+        t = norm(t)
+        if t[0] == 'pkg':
+            self.pkg = t[1]
+        elif t[0] == 'reset':
+            self.beh = {x: 'o' for x in TARGETS}
+            for o in self.cache.values():
+                o.canceled = True
+        elif t[0] == 'xfe' or t[0] == 'newq':
+            pass                                     # ExportFunc("") is rejected before it is a lookup
+        elif t[0] == 'qlook':
+            self.lookup('fn', 'fA', caller='pq')
+        elif t[0] == 'keep':
+            self.regs[t[1]] = self.lookup(t[2], t[3])
+        elif t[0] == 'on':
+            o = self.regs.get(t[1])
+            if o is not None:
+                self.instr(o, t[2:], idx)
+        else:
+            o = self.lookup(t[0], t[1])
+            if o is not None:
+                self.instr(o, t[2:], idx)
+
+    def row(self):
         row = []
         for x in TARGETS:
-            b = beh[x]
+            b = self.beh[x]
+            if b == 'o' and x in SIBLING and self.beh[SIBLING[x]] != 'o':
+                b = 'n'                              # C07: a method without a mock of its own panics while its variable is mocked
             row.append('.'.join((b.invoke(a) if isinstance(b, RefWhen) else b) for a in (1, 2)))
-        rows.append(','.join(row))
-    return rows
+        return ','.join(row)
 
 
-def ref_ids(ops):
-    """Expected mocker ordinals: a repeated lookup yields the same object unless it was cancelled (or Reset) since."""
-    live, n, pkg, res = {}, 0, 'p0', []
-    for op in ops:
-        t = norm(op.split())
-        if t[0] == 'pkg':
-            pkg = t[1]
-            res.append('-')
-        elif t[0] == 'reset':
-            live = {}
-            res.append('-')
-        elif t[0] == 'var':
-            pkg = 'p0'
-            res.append('-')
-        else:
-            key = (t[0], t[1], pkg if t[0] in PKG_KINDS else '')
-            pkg = 'p0'
-            if t[0] == 'st' and t[1] not in ('M1', 'M2'):
-                res.append(None)           # panics: no mocker
-                continue
-            if key not in live:
-                live[key] = n
-                n += 1
-            res.append('m%d' % live[key])
-            if t[2] == 'cancel':
-                del live[key]
-    return res
+def split_ops(hist):
+    return [o.strip() for o in hist.split(';')]
+
+
+def reference(ops):
+    """Expected behaviour rows, and the Ref after the last op."""
+    ref = Ref(bool(ops) and ops[0] == 'newq')
+    rows = []
+    for i, op in enumerate(ops):
+        ref.step(op.split(), i)
+        rows.append(ref.row())
+    return rows, ref
 
 
 def oracle(hist, obs):
     """The property on the implementation's observation of one history. Returns (why, key) or None."""
-    ops = [o.strip() for o in hist.split(';')]
+    ops = split_ops(hist)
     if obs is None:
         return ('no observation (probe crashed?)', None)
     if obs.startswith('crash') or obs.startswith('dirty'):
@@ -196,26 +259,30 @@ def oracle(hist, obs):
     steps = obs.split(' ; ')
     if len(steps) != len(ops):
         return ('observation has %d steps for %d ops' % (len(steps), len(ops)), None)
-    want = reference(ops)
-    ids = ref_ids(ops)
+    want, ref = reference(ops)
     for i, (st, w) in enumerate(zip(steps, want)):
-        head, _, row = st.rpartition(' ')
+        row = st.rpartition(' ')[2]
         if row != w:
-            return ('after op %d `%s` targets behave %s, the last instructions say %s' % (i, ops[i], row, w), classify(ops[:i + 1], row, w))
-        if ids[i] is not None and not head.startswith('panic:') and head != ids[i]:
-            return ('op %d `%s` returned mocker %s, expected %s (a repeated lookup continues the live mocker; a cancelled one is replaced)'
-                    % (i, ops[i], head, ids[i]), classify_pkg(ops[:i + 1]))
+            g, ww = row.split(','), w.split(',')
+            only_if2 = all(g[j] == ww[j] for j in range(len(TARGETS) - 2))
+            if ref.stale_use is not None and i >= ref.stale_use:
+                key = KEY_STALE
+            elif ref.if2_cancel is not None and i >= ref.if2_cancel and only_if2:
+                key = KEY_IF2
+            else:
+                key = classify(ops[:i + 1], row, w)
+            return ('after op %d `%s` targets behave %s, the last instructions say %s' % (i, ops[i], row, w), key)
     return None
 
 
 def classify(ops, got, want):
-    """Name the known defect class of a deviation (narrowly), else None."""
+    """Name the class of a deviation (narrowly), else None."""
     g, w = got.split(','), want.split(',')
     bad = [i for i in range(len(g)) if g[i] != w[i]]
-    t = ops[-1].split()
+    t = norm(ops[-1].split())
     # F7: the failing op is a stub instruction, only its own target deviates, and that target still runs a callback
-    if len(bad) == 1 and len(t) > 2 and t[2] in ('ret', 'when', 'whenret', 'rets') and g[bad[0]].startswith('k') \
-            and any(norm(o.split())[:2] == norm(t)[:2] and o.split()[2] == 'apply' for o in ops[:-1] if len(o.split()) > 2):
+    if len(bad) == 1 and len(t) > 2 and t[2] in STUBS and g[bad[0]].startswith('k') \
+            and any(norm(o.split())[:2] == t[:2] and o.split()[2] == 'apply' for o in ops[:-1] if len(o.split()) > 2):
         return KEY_F7
     if len(bad) <= 2:
         return classify_pkg(ops)
@@ -223,25 +290,27 @@ def classify(ops, got, want):
 
 
 def classify_pkg(ops):
-    """F14: an ExportFunc op that resolved its name in p1 although the last Pkg(p1) was followed by a var lookup."""
+    """A package-sensitive op that resolved its name in p1 although a lookup came after the last Pkg(p1)."""
     t = ops[-1].split()
+    if t[0] == 'keep':
+        t = t[2:]
     if t[0] not in PKG_KINDS:
         return None
-    seen_var = False
+    seen_lookup = False
     for o in reversed(ops[:-1]):
         k = o.split()[0]
-        if k == 'var':
-            seen_var = True
-        elif k == 'pkg':
-            return KEY_F14 if (seen_var and o.split()[1] == 'p1') else None
-        elif k != 'reset':
-            return None
+        if k == 'pkg':
+            return KEY_PKG if (seen_lookup and o.split()[1] == 'p1') else None
+        if k not in ('reset', 'on', 'xfe'):
+            seen_lookup = True
     return None
 
 
 # ------------------------------------------------------------------ generators
 
-def gen_instr(rng, w_apply=4, w_stub=6, w_cancel=2, w_look=2):
+def gen_instr(rng, kind='fn', w_apply=4, w_stub=6, w_cancel=2, w_look=2):
+    if kind in VAR_KINDS:
+        w_stub = 0
     x = rng.below(w_apply + w_stub + w_cancel + w_look)
     if x < w_apply:
         return 'apply k%d' % rng.below(4)
@@ -261,48 +330,77 @@ def gen_instr(rng, w_apply=4, w_stub=6, w_cancel=2, w_look=2):
     return 'look'
 
 
-def gen_history(rng, maxlen, bad=False):
+def sanitize(ops):
+    """Drop ops the probe cannot issue or the model does not cover: `on r` with an empty register, and instructions
+    through an interface handle after its own Cancel (context backup not modelled - Model/ApiC12.lean header)."""
+    ref = Ref(bool(ops) and ops[0] == 'newq')
+    out = []
+    for i, op in enumerate(ops):
+        t = norm(op.split())
+        if t[0] == 'on':
+            o = ref.regs.get(t[1])
+            if o is None or (t[2] in STUBS and o.kind in VAR_KINDS):
+                continue
+            if t[2] != 'look' and o.kind == 'if' and ref.stale(o):
+                continue
+        if t[0] == 'keep' and (t[2] in VAR_KINDS or t[2] == 'i2'):
+            continue
+        ref.step(op.split(), i)
+        out.append(op)
+    return out
+
+
+def gen_history(rng, maxlen, bad=False, keep=False):
     """A mostly valid history concentrated on 1-3 handles (so that instructions for one target alternate)."""
     n = 2 + rng.below(maxlen - 1)
-    hs = [rng.choice(HANDLES) for _ in range(1 + rng.below(3))]
+    pool = KEEP_KINDS if keep else HANDLES
+    hs = [rng.choice(pool) for _ in range(1 + rng.below(3))]
     if rng.chance(1, 3):
         hs.append(rng.choice([('xf', 'X'), ('xf', 'Y'), ('xs', 'um')]))
-    ops = []
+    ops = ['newq'] if rng.chance(1, 10) else []
     for _ in range(n):
-        x = rng.below(20)
+        x = rng.below(24)
         if x == 0:
             ops.append('reset')
         elif x == 1:
-            ops.append('pkg ' + rng.choice(['p0', 'p1', 'p1']))
+            ops.append('pkg ' + rng.choice(['p0', 'p1', 'p1', 'pq']))
         elif x == 2:
-            ops.append('var set %d' % rng.below(10))
+            ops.append('qlook')
         elif bad and x == 3:
-            ops.append(rng.choice(['st Mz look', 'xf nosuch apply k1', 'xf nosuch ret 1', 'xf nosuch look', 'xf nosuch cancel']))
+            ops.append(rng.choice(['st Mz look', 'xf nosuch apply k1', 'xf nosuch ret 1', 'xf nosuch look', 'xf nosuch cancel', 'xfe',
+                                   'pkg pq ; xf X apply k1', 'pkg pq ; xs um ret 2']))
         else:
             if hs[0][0] not in PKG_KINDS and rng.chance(1, 6):
-                k, nm = rng.choice(HANDLES)
+                k, nm = rng.choice(pool)
             else:
                 k, nm = rng.choice(hs)
             if k in PKG_KINDS and rng.chance(1, 2):
                 ops.append('pkg p1')
             if k == 'if' and rng.chance(2, 3):
                 nm = 'M.a%d' % rng.below(3)          # a different function literal handed to As()
-            ops.append('%s %s %s' % (k, nm, gen_instr(rng)))
-    return ' ; '.join(ops)
+            if keep and rng.chance(1, 2):
+                if rng.chance(1, 3):
+                    ops.append('keep %d %s %s' % (rng.below(3), k, nm))
+                else:
+                    ops.append('on %d %s' % (rng.below(3), gen_instr(rng, k, w_look=1)))
+            else:
+                ops.append('%s %s %s' % (k, nm, gen_instr(rng, k)))
+    return ' ; '.join(sanitize([o.strip() for o in ' ; '.join(ops).split(';')]))
 
 
 def systematic(depth):
     """All instruction sequences of length `depth` over a small alphabet on each handle kind (the F7 shapes are among them)."""
     alpha = ['apply k1', 'apply k2', 'ret 3', 'ret 4', 'whenret 1 5', 'rets 6 7', 'cancel', 'look']
+    valpha = ['apply k1', 'apply k2', 'cancel', 'look']
     out = []
 
-    def rec(prefix):
+    def rec(prefix, al):
         if len(prefix) == depth:
             out.append(list(prefix))
             return
-        for a in alpha:
-            rec(prefix + [a])
-    rec([])
+        for a in al:
+            rec(prefix + [a], al)
+    rec([], alpha)
     hist = []
     for k, nm in [('fn', 'fA'), ('st', 'M1'), ('if', 'M'), ('xf', 'X'), ('xs', 'um')]:
         for seq in out:
@@ -310,6 +408,40 @@ def systematic(depth):
     # the interface method again, every statement of the chain with its own As() literal
     for seq in out:
         hist.append(' ; '.join('if M.a%d %s' % (i % 3, a) for i, a in enumerate(seq)))
+    # the two-method interface variable: every sequence over both methods
+    al2 = ['%s %s' % (m, a) for m in ('A', 'B') for a in ('apply k1', 'ret 3', 'cancel', 'look')] + ['reset']
+    out = []
+    rec([], al2)
+    for seq in out:
+        hist.append(' ; '.join(a if a == 'reset' else 'i2 ' + a for a in seq))
+    # variables: Set / Cancel / lookups, then Reset (the value must be back) and one more Set
+    out = []
+    rec([], valpha)
+    for k, nm in [('var', 'v'), ('uvar', 'w')]:
+        for seq in out:
+            hist.append(' ; '.join(['%s %s %s' % (k, nm, a) for a in seq] + ['reset', '%s %s apply k3' % (k, nm)]))
+    return hist
+
+
+def kept_lane(depth):
+    """Handles kept in variables: h0 is looked up, used and cancelled, h1 is looked up again (replacing h0 in the builder's
+    cache); then every sequence of `depth` instructions through h0 (stale), h1 (live) or a fresh lookup."""
+    acts = ['apply k1', 'ret 3', 'cancel']
+    firsts = ['ret 1', 'apply k2']
+    hist = []
+    for k, nm in [('fn', 'fA'), ('st', 'M1'), ('xf', 'X'), ('xs', 'um')]:
+        via = ['on 0 ', 'on 1 ', '%s %s ' % (k, nm)]
+        seqs = [[]]
+        for _ in range(depth):
+            seqs = [q + [v + a] for q in seqs for v in via for a in acts]
+        for f in firsts:
+            for q in seqs:
+                hist.append(' ; '.join(['keep 0 %s %s' % (k, nm), 'on 0 ' + f, 'on 0 cancel', 'keep 1 %s %s' % (k, nm)] + q))
+        # live kept handles only (no cancel before the second lookup: h0 and h1 are the same mocker)
+        for q in seqs:
+            hist.append(' ; '.join(['keep 0 %s %s' % (k, nm), 'on 0 ret 1', 'keep 1 %s %s' % (k, nm)] + q))
+    for q in [[a, b] for a in acts + ['whenret 1 5'] for b in acts + ['whenret 2 6']]:
+        hist.append(' ; '.join(sanitize(['keep 0 if M.a1', 'on 0 ' + q[0], 'keep 1 if M.a2', 'on 1 ' + q[1], 'on 0 ret 7', 'if M ret 8'])))
     return hist
 
 
@@ -317,13 +449,13 @@ def pkg_lane(triples):
     """Pkg followed by every pair (triple) of lookups of every kind - first-time lookups and cache hits (the same lookup
     was already made under the same package before) - then probes that show where the package-sensitive names resolve
     (the clause `applies to the next lookup only`)."""
-    looks = ['fn fA look', 'st M1 look', 'if M look', 'xf X look', 'xf Y ret 5', 'xs um look', 'xs um apply k1', 'var set 3',
-             'st Mz look', 'xf nosuch look']
+    looks = ['fn fA look', 'st M1 look', 'if M look', 'xf X look', 'xf Y ret 5', 'xs um look', 'xs um apply k1', 'var v apply k3',
+             'uvar w look', 'st Mz look', 'xf nosuch look', 'keep 0 xf X', 'keep 1 fn fB']
     probes = ['xf X apply k2 ; xs um apply k3 ; xf X ret 7 ; xs um ret 8']
     hist = []
     seqs = [[a, b] for a in looks for b in looks]
     if triples:
-        seqs += [[a, b, c] for a in looks for b in looks for c in looks]
+        seqs += [[a, b, c] for a in looks[:11] for b in looks[:11] for c in looks[:11]]
     for p in ('p0', 'p1'):
         for seq in seqs:
             # cold: every lookup is the first of its kind; warm: each was made before under Pkg(p) (cache hit now),
@@ -336,13 +468,30 @@ def pkg_lane(triples):
     return hist
 
 
+def caller_lane():
+    """Whose package is "the caller's": builders created by the helper package, lookups issued from it, the rejected
+    ExportFunc("") that is no lookup."""
+    looks = ['fn fA look', 'st M1 look', 'if M look', 'xf X look', 'xs um look', 'var v look', 'uvar w look', 'qlook', 'xfe', 'pkg p1',
+             'pkg pq', 'pkg p0', 'reset', 'keep 0 xf Y', 'keep 0 st M2']
+    probes = 'xf X apply k2 ; xs um apply k3 ; xf Y ret 7 ; xs um ret 8'
+    hist = []
+    for pre in ('', 'newq ; '):
+        hist.append(pre + probes)
+        for a in looks:
+            hist.append(pre + a + ' ; ' + probes)
+            for b in looks:
+                hist.append(pre + a + ' ; ' + b + ' ; ' + probes)
+    return hist
+
+
 CORPUS = [
     'fn fA ret 1 ; fn fA apply k2 ; fn fA ret 3',                      # F7 (DESIGN section 8)
     'st M1 ret 1 ; st M1 apply k2 ; st M1 whenret 1 3',
     'if M ret 1 ; if M apply k2 ; if M ret 3',
     'xf X ret 1 ; xf X apply k2 ; xf X ret 3',
     'fn fA apply k1 ; fn fA ret 3 ; fn fA apply k2 ; fn fA ret 4 ; fn fA apply k3 ; fn fA whenret 1 5',
-    'pkg p1 ; var set 3 ; xf Y apply k1',                               # F14
+    'pkg p1 ; var v apply k3 ; xf Y apply k1',                          # F14/F17
+    'pkg p1 ; uvar w apply k3 ; xf Y apply k1',
     'pkg p1 ; xf X apply k1 ; xf X apply k2 ; pkg p1 ; xf X look ; xf X cancel',
     'pkg p1 ; xs um look ; pkg p1 ; xs um look ; xs um apply k1',        # seed c06-3: ExportStruct cache hit keeps the override
     'pkg p1 ; xs um ret 1 ; pkg p1 ; xs um apply k2 ; pkg p1 ; xs um ret 3 ; xs um whenret 1 4 ; reset ; xs um look',
@@ -351,26 +500,38 @@ CORPUS = [
     'if M.a1 rets 1 2 ; if M.a2 rets 3 4',                              # seed c05-4: a second statement with its own As() literal
     'if M.a0 whenret 1 5 ; if M.a1 whenret 2 6 ; if M.a2 ret 7 ; if M.a0 rets 8 9',
     'st M1 apply k1 ; st M2 ret 5 ; st M1 cancel ; st M1 ret 2 ; reset ; st M2 look',
+    'keep 0 fn fA ; on 0 ret 1 ; on 0 cancel ; keep 1 fn fA ; on 1 ret 3 ; on 0 ret 2 ; fn fA ret 4',   # review A2: stale handle
+    'var v apply k1 ; var v apply k2 ; reset ; var v look ; uvar w apply k1 ; uvar w apply k2 ; uvar w cancel',   # review D5
+    'newq ; xf X apply k1 ; xf X apply k2 ; qlook ; xf X apply k3 ; xf X ret 5',                        # review D1/D2
+    'pkg p1 ; xfe ; xf X apply k1 ; xf X apply k2',                                                     # review A5
+    'i2 A ret 1 ; i2 B ret 2 ; i2 A cancel ; i2 A ret 3',                                               # review A3
+    'i2 A apply k1 ; i2 B look ; i2 A ret 3 ; i2 B whenret 1 5 ; i2 A cancel ; i2 B cancel ; reset ; i2 B apply k2',
 ]
 
 
 def gen_all(tier, rng):
     hist = list(CORPUS)
     hist += systematic(3)
-    hist += pkg_lane(triples=True)
-    n_valid, n_bad, maxlen = (1500, 300, 20) if tier == 'quick' else (60000, 8000, 30)
+    hist += kept_lane(2)
+    hist += caller_lane()
+    hist += pkg_lane(triples=(tier == 'thorough'))
+    n_valid, n_keep, n_bad, maxlen = (1500, 1200, 300, 20) if tier == 'quick' else (60000, 40000, 8000, 30)
     if tier == 'thorough':
         hist += systematic(4)
+        hist += kept_lane(3)
     for _ in range(n_valid):
         hist.append(gen_history(rng, maxlen))
+    for _ in range(n_keep):
+        hist.append(gen_history(rng, maxlen, keep=True))
     for _ in range(n_bad):
         hist.append(gen_history(rng, maxlen, bad=True))
-    return list(dict.fromkeys(hist))
+    return [h for h in dict.fromkeys(hist) if h]
 
 
 # ------------------------------------------------------------------ running
 
 _BIN = {}
+PROBE_TIMEOUT = 1800          # per chunk; typical chunk wall time is a few seconds
 
 
 def build_probe():
@@ -378,6 +539,7 @@ def build_probe():
         return _BIN['b']
     extra = C.helper_pkgs()
     extra['internal/zzverif/c12p'] = {'p1.go': os.path.join(C.HARNESS, 'c12', 'p1', 'p1.go')}
+    extra['internal/zzverif/c12q'] = {'q.go': os.path.join(C.HARNESS, 'c12', 'q', 'q.go')}
     b, err = C.overlay_build('c12', '', {'zz_verif_c12_test.go': os.path.join(C.HARNESS, 'c12', 'probe_test.go')}, extra)
     if b is None:
         raise C.Infra('probe c12 does not build against the current tree:\n' + err[-3000:])
@@ -385,29 +547,57 @@ def build_probe():
     return b
 
 
+def probe_env(opsp, outp):
+    """The environment the probe runs in: goom's own knobs are removed (GOOM_DEBUG switches the debug wrapper on)."""
+    e = C.goenv({'VERIF_OPS': opsp, 'VERIF_OUT': outp, 'VERIF_SEED': str(C.seed())})
+    for k in list(e):
+        if k.startswith('GOOM_') and k != 'GOOM_REPO':
+            del e[k]
+    e.pop('GOTRACEBACK', None)
+    e.pop('GODEBUG', None)
+    return e
+
+
+def run_chunk(b, lines, tag):
+    """One probe process on `lines`. Returns (observations, rc) - rc None when the process was killed by the timeout."""
+    opsp = os.path.join(C.BUILD, f'{tag}.ops')
+    outp = os.path.join(C.BUILD, f'{tag}.impl')
+    open(opsp, 'w').write('\n'.join(lines) + '\n')
+    if os.path.exists(outp):
+        os.remove(outp)
+    try:
+        p = subprocess.run([b, '-test.run', '^TestVerifC12$', '-test.count=1', '-test.timeout', f'{PROBE_TIMEOUT}s'],
+                           env=probe_env(opsp, outp), cwd=C.BUILD, capture_output=True, text=True, timeout=PROBE_TIMEOUT + 120)
+        rc = p.returncode
+    except subprocess.TimeoutExpired:
+        rc = None
+    return C.read_indexed(outp, len(lines)), rc
+
+
 def run_impl(lines, tag):
-    """Run the probe on `lines` in parallel chunks (own process each: a crash loses one history, which is re-run alone)."""
+    """Run the probe on `lines` in parallel chunks (own process each).  A history whose process died, or that found the
+    process dirty (left-overs of an earlier history), is re-run ONCE alone in a fresh process: only what reproduces is
+    reported (a crash that reproduces is an observation `crash`; a timeout that does not reproduce is nothing)."""
     b = build_probe()
     res = [None] * len(lines)
     nchunk = max(1, min(C.NCPU, len(lines) // 50 + 1))
     size = (len(lines) + nchunk - 1) // nchunk
+    redo = []
+    lock = threading.Lock()
 
     def work(ci):
         lo, hi = ci * size, min(len(lines), (ci + 1) * size)
         start = lo
         while start < hi:
-            opsp = os.path.join(C.BUILD, f'{tag}.{ci}.ops')
-            outp = os.path.join(C.BUILD, f'{tag}.{ci}.impl')
-            open(opsp, 'w').write('\n'.join(lines[start:hi]) + '\n')
-            rc, log = C.run_probe(b, 'TestVerifC12', opsp, outp, timeout=900)
-            got = C.read_indexed(outp, hi - start)
+            got, rc = run_chunk(b, lines[start:hi], f'{tag}.{ci}')
             for j, v in enumerate(got):
                 if v is not None:
                     res[start + j] = v
             if rc == 0:
                 break
             done = max([j for j, v in enumerate(got) if v is not None], default=-1)
-            res[start + done + 1] = 'crash rc=%d' % rc
+            with lock:
+                redo.append(start + done + 1)
             start = start + done + 2
 
     ths = [threading.Thread(target=work, args=(i,)) for i in range(nchunk)]
@@ -415,6 +605,17 @@ def run_impl(lines, tag):
         t.start()
     for t in ths:
         t.join()
+    redo += [i for i, v in enumerate(res) if v is not None and v.startswith('dirty')]
+    for k, i in enumerate(sorted(set(redo))):
+        if i >= len(lines):
+            continue
+        got, rc = run_chunk(b, [lines[i]], f'{tag}.redo{k}')
+        if got[0] is not None and not got[0].startswith('dirty'):
+            res[i] = got[0]
+        elif rc is None:
+            raise C.Infra(f'probe timed out twice on `{lines[i]}` (machine overloaded?)')
+        else:
+            res[i] = got[0] if got[0] is not None else 'crash rc=%s' % rc
     return res
 
 
@@ -429,7 +630,7 @@ def run_model(lines, tag, cmd='c12.hist'):
 
 def shrink(hist):
     """Delta-debug one failing history on the implementation: drop ops while the oracle still fails with the same key."""
-    ops = [o.strip() for o in hist.split(';')]
+    ops = split_ops(hist)
     first = oracle(hist, run_impl(['c12.hist ' + hist], 'c12-shrink')[0])
     if first is None:
         return hist
@@ -437,7 +638,10 @@ def shrink(hist):
     changed = True
     while changed and len(ops) > 1:
         changed = False
-        cands = [ops[:i] + ops[i + 1:] for i in range(len(ops))]
+        cands = [c for c in (sanitize(ops[:i] + ops[i + 1:]) for i in range(len(ops))) if c and len(c) < len(ops)]
+        cands = [list(x) for x in dict.fromkeys(tuple(c) for c in cands)]
+        if not cands:
+            break
         obs = run_impl(['c12.hist ' + ' ; '.join(c) for c in cands], 'c12-shrink')
         for c, o in zip(cands, obs):
             r = oracle(' ; '.join(c), o)
@@ -447,10 +651,13 @@ def shrink(hist):
     return ' ; '.join(ops)
 
 
+FLOORS = {'quick': 5000, 'thorough': 60000}
+
+
 def run(tier):
     out = C.Outcome('C12', tier)
     rng = C.Rng(C.seed()).fork('C12')
-    proof = C.prove('C12', extra_targets=('GoomVerif.Findings.C12F7',), leanchecker=(tier == 'thorough'))
+    proof = C.prove('C12', extra_targets=('GoomVerif.Findings.C12F7', 'GoomVerif.Findings.C12Stale'), leanchecker=(tier == 'thorough'))
     hists = gen_all(tier, rng)
     lines = ['c12.hist ' + h for h in hists]
     impl = run_impl(lines, 'c12')
@@ -459,40 +666,53 @@ def run(tier):
     if model is None:
         proof['failed'].append(('goomdrv', 'driver does not build: ' + derr[-500:]))
         proof['ok'] = False
+    # floors: a lane that silently ran nothing is a machinery error, not a pass
+    refs = [reference(split_ops(h))[1] for h in hists]
+    n_stale = sum(1 for r in refs if r.stale_use is not None)
+    n_kept = sum(1 for h in hists if 'on ' in h)
+    n_obs = sum(1 for o in impl if o and not o.startswith(('crash', 'dirty')))
+    if len(hists) < FLOORS[tier] or n_obs < len(hists) * 9 // 10 or n_stale < 100 or n_kept < 500 or \
+            (model is not None and sum(1 for m in model if m == 'bad-op') > 0):
+        raise C.Infra(f'generator/probe floor not met: histories={len(hists)} observed={n_obs} kept-handle={n_kept} stale={n_stale} '
+                      f'model-bad-op={sum(1 for m in (model or []) if m == "bad-op")}')
     # 1. the property on the implementation
     fails = {}
     for h, o in zip(hists, impl):
         r = oracle(h, o)
         if r:
             fails.setdefault(r[1], []).append((h, o, r[0]))
+    known_keys = {kf.get('match', {}).get('key') for kf in C.known_findings('C12') if kf.get('status') == 'known'}
     for key, fl in fails.items():
         fl.sort(key=lambda x: len(x[0]))
         h, o, why = fl[0]
-        hs = shrink(h)
+        hs = shrink(h) if key not in known_keys else h
         o2 = run_impl(['c12.hist ' + hs], 'c12-shrink')[0]
         r2 = oracle(hs, o2) or (why, key)
-        out.violation(f'`{hs}`: {r2[0]}', {'kind': 'impl-oracle', 'ops': ['c12.hist ' + hs], 'observed': o2, 'expected': ' ; '.join(reference([x.strip() for x in hs.split(';')])),
+        out.violation(f'`{hs}`: {r2[0]}', {'kind': 'impl-oracle', 'ops': ['c12.hist ' + hs], 'observed': o2, 'expected': ' ; '.join(reference(split_ops(hs))[0]),
                                           'class': key, 'n_failing_histories': len(fl), 'unshrunk': h,
                                           'how': 'GOOM_REPO=<tree> python3 check.py C12 --replay <this file>'}, key=key)
-    # 2. correspondence (model of the repaired code vs implementation) and reference vs model (what the theorem says, re-observed)
+    real_fails = {k: v for k, v in fails.items() if k not in known_keys}
+    # 2. correspondence (model vs implementation, stale-handle histories included) and reference vs model on the histories the theorem covers
     diffs = C.diff_streams(lines, impl, model) if model is not None else []
     refdiff = 0
     if model is not None and lww is not None:
-        for m, l in zip(model, lww):
-            if [s.rpartition(' ')[2] for s in m.split(' ; ')] != l.split(' ; '):
+        for h, m, l, r in zip(hists, model, lww, refs):
+            covered = r.stale_use is None and not any(o.split()[0] == 'i2' for o in split_ops(h))   # hypothesis of refines_lww_partial
+            if covered and [s.rpartition(' ')[2] for s in m.split(' ; ')] != l.split(' ; '):
                 refdiff += 1
-    if not fails:
+    if not real_fails:
         if diffs:
             i, op, a, b = diffs[0]
             out.violation(f'model and implementation disagree on `{op}`', {'kind': 'correspondence', 'ops': [op], 'impl': a, 'model': b,
-                          'broken': 'correspondence Model/ApiC12.lean vs builder.go/cache.go/mocker.go/iface.go/when.go',
+                          'broken': 'correspondence Model/ApiC12.lean vs builder.go/cache.go/mocker.go/iface.go/when.go/var.go',
                           'n_disagreements_shown': len(diffs)}, no_failing_input=True)
         elif not proof['ok']:
             out.violation('proof obligations of Props/C12.lean no longer check and no failing input was found in the search',
                           {'kind': 'proof', 'broken': proof['failed'], 'searched': len(lines), 'output': proof.get('output', '')[-3000:]},
                           no_failing_input=True)
         elif refdiff:
-            out.violation('driver: model and reference disagree although refines_lww is proved', {'kind': 'driver', 'n': refdiff}, no_failing_input=True)
+            out.violation('driver: model and reference disagree on a history that meets the hypothesis of refines_lww_partial',
+                          {'kind': 'driver', 'n': refdiff}, no_failing_input=True)
     # evidence
     nops = sum(h.count(';') + 1 for h in hists)
     kinds = {}
@@ -500,7 +720,10 @@ def run(tier):
     for h, o in zip(hists, impl):
         for op in h.split(';'):
             t = op.split()
-            k = t[0] + ':' + (t[2] if len(t) > 2 and t[0] in ('fn', 'st', 'if', 'xf') else '')
+            if t[0] in ('keep', 'on'):
+                k = t[0] + ':' + (t[2] if len(t) > 2 else '')
+            else:
+                k = t[0] + ':' + (t[2] if len(t) > 2 else '')
             kinds[k] = kinds.get(k, 0) + 1
         if o:
             for st in o.split(' ; '):
@@ -511,16 +734,18 @@ def run(tier):
         'obligations': proof['obligations'], 'discharged': proof['discharged'],
         'checker_cmd': ' ; '.join(proof['cmds']),
         'trusted_base': ['Lean 4.33 kernel', 'axioms: ' + ', '.join(sorted({a for v in proof['axioms'].values() for a in v}) or ['none']),
-                         'hand transcription Model/ApiC12.lean of builder.go/cache.go/mocker.go/iface.go/when.go (validated: every history below ran on the real API and on the model, mocker identities and behaviour of 11 targets compared after every step)',
+                         'hand transcription Model/ApiC12.lean of builder.go/cache.go/mocker.go/iface.go/when.go/var.go (validated: every history below ran on the real API and on the model, outcome class of every op and behaviour of 15 targets compared after every step)',
                          'probe harness/c12 and its canonicalisation; Python last-writer-wins reference in checks/C12.py (third, independent statement of the property)',
-                         'not modelled: reflect.MakeFunc, patch layer, GC (off in the probe), aliasing of one function through two kinds of handle'],
+                         'not modelled: reflect.MakeFunc, patch layer, GC (off in the probe), aliasing of one function through two kinds of handle, interface handles used after their own Cancel, kept variable handles'],
         'theorems': proof['axioms'], 'proof_failures': proof['failed'],
         'evaluations': len(hists), 'steps': nops, 'distinct_nontrivial': nontrivial,
         'traces_validated_against_impl': len(hists) - len(diffs),
-        'rule': 'one evaluation = one history (fresh builder) of 1..30 ops; after every op all 11 targets are called with 1 and 2; '
-                'lanes: regress corpus, all instruction triples (thorough: quadruples) over 8 instructions x 5 handle kinds, Pkg x every pair and triple of 10 lookup forms (cold and as cache hits), random valid, random with error ops; '
+        'rule': 'one evaluation = one history (fresh builder, created in the test package or by the helper package) of 1..30 ops; after every op all 15 targets are called with 1 and 2 / read; '
+                'lanes: regress corpus, all instruction triples (thorough: quadruples) over 8 instructions x 5 handle kinds and over 4 x 2 variable kinds, kept handles (stale/live/fresh x 3 instructions, pairs; thorough: triples), '
+                'caller-package lane (helper-created builder, helper-issued lookup, rejected lookup x pairs of 15 ops), Pkg x every pair (thorough: triple) of 13 lookup forms (cold and as cache hits), random valid, random with kept handles, random with error ops; '
                 'non-trivial = distinct observation in which some target is mocked',
         'distribution': {'histories': len(hists), 'ops': nops, 'op_kinds': dict(sorted(kinds.items())), 'result_classes_seen': sorted(classes),
+                         'histories_with_kept_handles': n_kept, 'histories_with_stale_handle_use': n_stale,
                          'impl_vs_model_disagreements': len(diffs), 'model_vs_reference_disagreements': refdiff,
                          'oracle_failures_by_class': {str(k): len(v) for k, v in fails.items()}},
         'samples': [{'op': lines[i], 'impl': impl[i], 'model': model[i] if model else None} for i in (0, len(lines) // 3, len(lines) // 2, len(lines) - 1)],
@@ -533,21 +758,19 @@ def replay(body):
     lines = body.get('ops', [])
     impl = run_impl(lines, 'c12-replay')
     model, _ = run_model(lines, 'c12-replay')
-    asf, _ = run_model(lines, 'c12-replay', 'c12.asfound')
     rc = 0
     for i, l in enumerate(lines):
         h = l.split(' ', 1)[1]
         r = oracle(h, impl[i])
         print(l)
-        ops = [o.strip() for o in h.split(';')]
-        want = reference(ops)
+        ops = split_ops(h)
+        want = reference(ops)[0]
         im = (impl[i] or 'None').split(' ; ')
         mo = (model[i] if model else 'None').split(' ; ')
-        af = (asf[i] if asf else 'None').split(' ; ')
         for j, op in enumerate(ops):
             g = lambda xs: xs[j] if j < len(xs) else '?'
-            print(f'  {op:24s} impl {g(im)}\n  {"":24s} model(repaired) {g(mo)}\n  {"":24s} model(as found) {g(af)}\n  {"":24s} last-writer-wins {g(want)}')
-        print('  oracle:', r[0] if r else 'ok')
+            print(f'  {op:24s} impl {g(im)}\n  {"":24s} model {g(mo)}\n  {"":24s} last-writer-wins {g(want)}')
+        print('  oracle:', (r[0] + (' [class ' + str(r[1]) + ']' if r[1] else '')) if r else 'ok')
         if r or (model and impl[i] != model[i]):
             rc = 1
     return rc
